@@ -232,6 +232,8 @@ func runC20(c *report.Ctx) {
 	ruleSuspendResume(c)
 	ruleQueueHeadroom(c)
 	ruleCloseDBAlwaysDone(c)
+	ruleNotificationsQueued(c)
+	ruleImportRetryOverride(c)
 }
 
 // ruleSuspendResume is shared with C07.
